@@ -4,7 +4,8 @@
    length IS the number of valid configurations; [estimate] (the transcription of
    count_configurations_rec) equals that length. *)
 From Coq Require Import List Bool String ZArith.
-From FM Require Import Model.FM Model.Sem Model.Ops Proofs.C13Facts.
+From FM Require Import Base.Result Model.FM Model.Sem Model.Ops Model.PyRt Model.Loc Gen.Src_ops Gen.Src_opobj
+     Proofs.C13Facts Proofs.SrcEstimateFacts Proofs.SrcTieC13.
 Import ListNotations.
 Local Open Scope list_scope.
 
@@ -37,6 +38,31 @@ Theorem C13_upper : forall f (p : list bool -> bool), cards_sane f ->
   (Z.of_nat (List.length (filter p (confs f))) <= estimate f)%Z.
 Proof. exact estimate_upper. Qed.
 Print Assumptions C13_upper.
+
+(* ---- the same about the TRANSLATED SOURCE (Gen/Src_ops.v, regenerated from
+   fm_estimated_configurations_number.py on every run; DESIGN §10) ---- *)
+Theorem C13_source_is_model : forall m fuel, (fuel_tree (root m) <= fuel)%nat ->
+  py_count_configurations fuel m = Ok (estimate (root m)).
+Proof. exact src_count_configurations. Qed.
+Print Assumptions C13_source_is_model.
+
+Theorem C13_source_exact : forall m fuel, (fuel_tree (root m) <= fuel)%nat -> cards_sane (root m) ->
+  py_count_configurations fuel m = Ok (Z.of_nat (List.length (confs (root m)))).
+Proof. exact source_estimate_exact. Qed.
+Print Assumptions C13_source_exact.
+
+Theorem C13_source_upper : forall m fuel (p : list bool -> bool), (fuel_tree (root m) <= fuel)%nat ->
+  cards_sane (root m) ->
+  exists n, py_count_configurations fuel m = Ok n /\ (Z.of_nat (List.length (filter p (confs (root m)))) <= n)%Z.
+Proof. exact source_estimate_upper. Qed.
+Print Assumptions C13_source_upper.
+
+(* the operation object, whatever it executed before *)
+Theorem C13_source_object : forall m fuel s, (fuel_tree (root m) <= fuel)%nat -> cards_sane (root m) ->
+  rmap py_FMEstimatedConfigurationsNumber_get_result (py_FMEstimatedConfigurationsNumber_execute fuel s m)
+  = Ok (Z.of_nat (List.length (confs (root m)))).
+Proof. exact source_estimate_object. Qed.
+Print Assumptions C13_source_object.
 
 Example C13_nonvacuous : cards_sane ex_tree /\ (10 < estimate ex_tree)%Z.
 Proof. split; [exact ex_tree_sane | vm_compute; reflexivity]. Qed.
